@@ -266,12 +266,33 @@ zres! {
 }
 
 /// "D3" -> the static cell of D3; "D3#2" -> its sibling with dynamic id 2
+pub const PANIC_DEFAULT_MARK: &str = "must be inserted explicitly";
+
+macro_rules! xres {
+    ($( $i:expr => $x:ident ),* $(,)?) => {
+        $(
+            /// resource whose `Default` PANICS (the "must be inserted explicitly" idiom): usable with
+            /// every accessor form, its setup only works when the resource already exists
+            #[derive(Debug)]
+            pub struct $x(pub u32);
+            impl Default for $x {
+                fn default() -> Self { panic!("{} {}", stringify!($x), PANIC_DEFAULT_MARK) }
+            }
+            impl ZRes for $x { const IDX: usize = $i; fn mk(v: u32) -> Self { $x(v) } fn val(&self) -> u32 { self.0 } }
+            impl<'b> Hrtb<'b> for $x {}
+        )*
+        pub static X_SLOTS: [Slot; 4] = [ $( Slot { name: stringify!($x), idx: $i, has_default: false, dynid: 0,
+            id: rid::<$x>, insert: ins::<$x>, get: get::<$x>, tyname: tyname::<$x> } ),* ];
+    };
+}
+xres! { 26 => X0, 27 => X1, 28 => X2, 29 => X3 }
+
 pub fn slot_by_name(name: &str) -> Option<&'static Slot> {
     let (base, dynid) = match name.split_once('#') {
         Some((b, n)) => (b, n.parse::<u64>().ok()?),
         None => (name, 0),
     };
-    let s = D_SLOTS.iter().chain(N_SLOTS.iter()).find(|s| s.name == base)?;
+    let s = D_SLOTS.iter().chain(N_SLOTS.iter()).chain(X_SLOTS.iter()).find(|s| s.name == base)?;
     if dynid == 0 {
         Some(s)
     } else {
@@ -504,8 +525,11 @@ pub struct CaseDesc {
     pub ty: String,
     pub shape: Value,
     pub nres: usize,
-    /// concrete type per abstract resource ("D3", "N0", ...)
+    /// concrete type per abstract resource ("D3", "N0", "X1", "D3#2", ...)
     pub conc: Vec<String>,
+    /// Default::default() of the resource's type panics
+    #[serde(default)]
+    pub pdef: Vec<bool>,
     /// runs with reference values emitted by TLC (spec -> implementation)
     #[serde(default)]
     pub runs: Vec<Run>,
@@ -528,6 +552,8 @@ pub struct Stats {
     pub setup_runs: usize,
     pub exec_runs: usize,
     pub second_pass: usize,
+    pub setup_leaked: usize,
+    pub setup_panics: usize,
     pub fetch_ctx: [usize; 3],
     pub twin_blocks: usize,
     pub fetch_ok: usize,
@@ -563,7 +589,9 @@ fn panic_text(p: Box<dyn std::any::Any + Send>) -> String {
 
 /// ("missing" | "borrow" | "other", abstract resource named by the message or 0)
 fn classify_panic(slots: &[&'static Slot], msg: &str) -> (&'static str, u32) {
-    let kind = if msg.contains("the resource does not exist") {
+    let kind = if msg.contains(PANIC_DEFAULT_MARK) {
+        "panic_default"
+    } else if msg.contains("the resource does not exist") {
         "missing"
     } else if msg.contains("already mutably borrowed") || msg.contains("already immutably borrowed") || msg.contains("already borrowed") {
         "borrow"
@@ -684,7 +712,7 @@ fn do_fetch(ops: &Ops, slots: &[&'static Slot], ids: &[ResourceId], present: &[b
 /// concrete indices of `D` types -> abstract resources of the case (0: not a resource of the case)
 fn abstract_of_default_types(slots: &[&'static Slot], log: &[usize]) -> Vec<u32> {
     log.iter()
-        .map(|c| slots.iter().position(|s| s.has_default && s.is_static() && s.idx == *c).map(|p| p as u32 + 1).unwrap_or(0))
+        .map(|c| slots.iter().position(|s| (s.has_default || s.idx >= NCONC) && s.is_static() && s.idx == *c).map(|p| p as u32 + 1).unwrap_or(0))
         .collect()
 }
 
@@ -695,8 +723,30 @@ struct SetupObs {
     w1: Vec<u32>,
 }
 
-fn do_setup(ops: &Ops, slots: &[&'static Slot], w0: &[u32], via: usize) -> SetupObs {
+fn setup_panic_kind(msg: &str) -> &'static str {
+    if msg.contains(PANIC_DEFAULT_MARK) {
+        "panic_default"
+    } else if msg.contains("already") && msg.contains("borrowed") {
+        "panic_borrow"
+    } else {
+        "panic"
+    }
+}
+
+/// `leaked[i]` 1 / 2: a shared / exclusive guard of the (present) resource is forgotten before the setup
+/// (what safe code can do with `mem::forget(world.fetch::<T>())`).
+fn do_setup(ops: &Ops, slots: &[&'static Slot], w0: &[u32], leaked: &[u8], via: usize) -> SetupObs {
     let mut w = mk_world(slots, w0);
+    for (i, l) in leaked.iter().enumerate() {
+        if *l != 0 {
+            let cell = unsafe { w.try_fetch_internal(slots[i].rid()) }.expect("leaked resource must be present");
+            if *l == 1 {
+                std::mem::forget(cell.try_borrow().expect("leak"));
+            } else {
+                std::mem::forget(cell.try_borrow_mut().expect("leak"));
+            }
+        }
+    }
     take_default_log();
     take_handler_log();
     let r = catch_unwind(AssertUnwindSafe(|| {
@@ -708,7 +758,11 @@ fn do_setup(ops: &Ops, slots: &[&'static Slot], w0: &[u32], via: usize) -> Setup
     }));
     let created = abstract_of_default_types(slots, &take_default_log());
     let calls = abstract_of_default_types(slots, &take_handler_log());
-    SetupObs { out: if r.is_ok() { "ok" } else { "panic" }, created, calls, w1: snapshot(slots, &w) }
+    let out = match r {
+        Ok(()) => "ok",
+        Err(p) => setup_panic_kind(&panic_text(p)),
+    };
+    SetupObs { out, created, calls, w1: snapshot(slots, &w) }
 }
 
 fn random_presence(n: usize, rng: &mut StdRng, k: usize) -> Vec<bool> {
@@ -744,7 +798,8 @@ pub fn run_case_with(ops: &Ops, d: &CaseDesc, slots: Vec<&'static Slot>, rng: &m
     let dflt: Vec<u32> = slots.iter().map(|s| DEFAULT_BASE + s.idx as u32).collect();
     let n0 = ev.len();
     ev.push(json!({"ev":"reset","case":d.id,"origin":d.origin,"ty":d.ty,"shape":d.shape,"nres":d.nres,"dflt":dflt,
-                   "conc":d.conc,"pass":pass}));
+                   "conc":d.conc,"pass":pass,
+                   "pdef": if d.pdef.len() == d.nres { d.pdef.clone() } else { vec![false; d.nres] }}));
 
     // ---- declarations: the type, and the accessor of a real System using it
     let mut reported: Option<(Vec<u32>, Vec<u32>)> = None;
@@ -849,9 +904,21 @@ pub fn run_case_with(ops: &Ops, d: &CaseDesc, slots: Vec<&'static Slot>, rng: &m
     for (k, (present, exp)) in setups.iter().enumerate() {
         let via = if exp.is_some() { (k + d.id as usize) % 4 } else { rng.gen_range(0..4) };
         let w0: Vec<u32> = present.iter().map(|p| if *p { rng.gen_range(1..DEFAULT_BASE) } else { 0 }).collect();
-        let o = do_setup(ops, &slots, &w0, via);
+        // in a share of the runs a guard of one present resource was leaked beforehand
+        let mut leaked = vec![0u8; d.nres];
+        if exp.is_none() && rng.gen_bool(0.3) {
+            let cand: Vec<usize> = (0..d.nres).filter(|i| present[*i]).collect();
+            if let Some(i) = cand.choose(rng) {
+                leaked[*i] = rng.gen_range(1..=2);
+                st.setup_leaked += 1;
+            }
+        }
+        let o = do_setup(ops, &slots, &w0, &leaked, via);
         st.setup_runs += 1;
-        let e = json!({"ev":"setup","via":SETUP_VIA[via],"w0":w0,"out":o.out,"created":o.created,"calls":o.calls,"w1":o.w1});
+        if o.out != "ok" {
+            st.setup_panics += 1;
+        }
+        let e = json!({"ev":"setup","via":SETUP_VIA[via],"w0":w0,"leaked":leaked,"out":o.out,"created":o.created,"calls":o.calls,"w1":o.w1});
         if let Some(x) = exp {
             st.model_runs += 1;
             let n = x.w1.len();
